@@ -12,6 +12,7 @@ mod ki5_header;
 mod ki5_blocks;
 mod ki5_symbols;
 mod ki5_trailer;
+mod ki6_fast;
 mod ki7_inflate;
 mod ki8_entry;
 mod kb1_back;
